@@ -198,6 +198,10 @@ func (r *generateReader) ReadByte() (byte, error) {
 			if errMsg != "" {
 				return 0, r.parseError(errMsg, si+3+sep)
 			}
+			if offset < -(1<<31-1) || offset > 1<<31-1 {
+				// Out of range whatever the iterator is, and the sums below would wrap.
+				return 0, r.parseError("bad offset in $GENERATE", si+3+sep)
+			}
 			if r.start+offset < 0 || r.end+offset > 1<<31-1 {
 				return 0, r.parseError("bad offset in $GENERATE", si+3+sep)
 			}
